@@ -24,7 +24,9 @@ def alphabet(rows, idx=(0, 1, -1)):
             ops.append(['insert', i, r])
             ops.append(['set', i, r])
         ops.append(['remove', r])
-    ops += [['extend', [rows[0], rows[-1]]], ['iadd', [rows[1 % len(rows)]]]]
+    ops += [['extend', [rows[0], rows[-1]]], ['iadd', [rows[1 % len(rows)]]],
+            # a batch that fails part-way (non-dict row): the rows accepted before the failure are in the grid
+            ['extend', [rows[0], 5]], ['iadd', [rows[-1], 5, rows[0]]], ['extend', [rows[-1], rows[0], 5]]]
     for i in idx:
         ops.append(['del', i])
     ops += [['delslice', 0, 1, None], ['delslice', 1, None, None], ['delslice', None, None, 2],
